@@ -407,6 +407,7 @@ def catalogue(tier="quick", mode="r1"):
                 t = dict(s)
                 t["id"] = "%s_dt%d" % (s["id"], k)
                 t["dt"] = dt
+                t["glob"] = False  # (step-size variants: the grand total over all compartments is what overflows 32-bit rationals first)
                 more.append(t)
         S += more
     return [expand(s, mode) for s in S]
